@@ -248,3 +248,51 @@ def h_direct(env, W, stats, dot, n0=1, n1=1, padding=0, prune=True, lmax=1):
     for g in range(ngpp):
         for c in keep:
             env.equal("backward_keeps_its_input_g%d_c%d" % (g, c), yin[g, c], y[g, c])
+
+
+# ---------------------------------------------------------------------------------------------------------------------------------
+def h_angc_wrapper(env, layout, nalpha=2):
+    """AtomicGridsIndexer.reduce_angc_ylm_ (the real wrapper, C interpreted) for array layouts a caller may hand it: C-contiguous
+    (stride > nalpha with an offset), the transpose of a qg-ordered array, an every-other-row view.  A layout the wrapper refuses
+    (AssertionError / ValueError) is outside the claim; for every layout it accepts in BOTH directions the backward call must be
+    the adjoint of the forward call - in particular it must write into the caller's array."""
+    gim = env.m.grids_indexer
+    dirs = np.array([[1.0, 0.0, 0.0], [0.0, 1.0, 0.0], [0.0, 0.0, 1.0], [0.6, 0.0, 0.8]])
+    s, y00 = np.sqrt(3 / (4 * np.pi)), 1 / np.sqrt(4 * np.pi)
+    ylm = np.ascontiguousarray(np.stack([np.full(len(dirs), y00), s * dirs[:, 1], s * dirs[:, 2], s * dirs[:, 0]], axis=1).round(6))
+    gi = gim.AtomicGridsIndexer(1, 1, np.array([0.3, 0.9]), np.array([0, 0], dtype=np.int32), np.array([0, 2], dtype=np.int32),
+                                np.array([0, 2, 4], dtype=np.int32), ylm, np.array([0, 2], dtype=np.int32))
+    gi.set_weights(np.ones(4))
+    ng, nrad, nlm = 4, 2, 4
+    stride = nalpha + 1
+    x = env.arr("x", (ng, stride), lo="-2", hi="2")
+    y = env.arr("y", (nrad, nlm, nalpha), lo="-2", hi="2")
+    zeros = env.zeros if env.sym else np.zeros
+
+    def make(init):
+        """the caller's theta_gq in the requested layout, holding `init` (ng x stride)"""
+        if layout == "contiguous":
+            a = zeros((ng, stride))
+        elif layout == "transposed":
+            a = zeros((stride, ng)).T
+        else:
+            a = zeros((2 * ng, stride))[::2]
+        a[...] = init
+        return a
+    offset = 1
+    xa = make(x if env.sym else np.asarray(x, dtype=float))
+    Ax = zeros((nrad, nlm, nalpha))
+    ok_f, _ = env.attempt("forward_call", lambda: gi.reduce_angc_ylm_(Ax, xa, a2y=True, offset=offset), expect=None)
+    By = make(0 if not env.sym else env.const(0))
+    ok_b, _ = env.attempt("backward_call", lambda: gi.reduce_angc_ylm_(y.copy() if env.sym else np.ascontiguousarray(y, dtype=float), By, a2y=False, offset=offset), expect=None)
+    if layout != "contiguous":
+        # refusing the layout is fine: turn the two "returns" facts into "consistent" facts
+        for o in env.obls[-2:]:
+            o.got = True
+        env.check("both_directions_agree_on_accepting_the_layout", ok_f == ok_b, "forward accepted: %s, backward accepted: %s" % (ok_f, ok_b))
+    if not (ok_f and ok_b):
+        return
+    win = slice(offset, offset + nalpha)
+    lhs = sum((Ax[r, l, q] * y[r, l, q] for r in range(nrad) for l in range(nlm) for q in range(nalpha)), env.const(0))
+    rhs = sum((x[g, offset + q] * By[g, offset + q] for g in range(ng) for q in range(nalpha)), env.const(0))
+    env.equal("<Ax,y>=<x,By>", lhs, rhs)
